@@ -374,6 +374,9 @@ def main(out_v, out_json):
             tree_ = "(TIf (CIsNone HObj) (TRet RNone) %s)" % tree_
         urows.append("(%s, %s)" % (ty(u), tree_))
         stats["cattrs_disambiguators"] += 1
+    # every distinct union type dispatch can meet (fields, through Seq/Dict/Tuple/Optional) + the registered ones
+    utbl = sorted({ty(u) for u in seen} | {ty(u) for u in registered})
+    out.append("Definition union_table : list pty := [\n  " + ";\n  ".join(utbl) + "].")
     out.append("Definition uhooks_ : list (pty * hook) := [\n  " + ";\n  ".join(urows) + "].")
     out.append("Definition Sg : sigma := {| classes := classes_; enums := enums_; uhooks := uhooks_; forbid_extra := %s |}." % b(getattr(conv, "forbid_extra_keys", False)))
     # module-level type alias objects
@@ -436,7 +439,7 @@ def main(out_v, out_json):
     methods = {}
     for m, tup in getattr(T, "METHOD_TO_TYPES", {}).items():
         methods[m] = [getattr(x, "__name__", None) if isinstance(x, type) else None for x in tup[:2]]
-    json.dump({"stats": stats, "classes": cls_names, "enums": enum_names, "methods": methods,
+    json.dump({"stats": stats, "classes": cls_names, "enums": enum_names, "methods": methods, "unions": utbl,
                "detailed_validation": bool(getattr(conv, "detailed_validation", True))}, open(out_json, "w"))
     print(json.dumps(stats))
 
